@@ -27,13 +27,18 @@
 (*  - a value of the field's own class that fits and satisfies the         *)
 (*    constraints is accepted (otherwise the equality clauses "JSON = YAML",*)
 (*    "snake_case accepted", "round trip equal" would be vacuous)          *)
-(*  - where the statement leaves a choice the set has both members:        *)
-(*    float-syntax integers into ints (1.0, 1e2), numeric strings into     *)
-(*    numbers without `,string`, "true" into bool, numbers with `,string`, *)
-(*    decimal fractions that a binary float only approximates (0.1 ->      *)
-(*    the correctly rounded value or an error), uint64 above 2^63-1,        *)
-(*    Duration from text sources; null and a bare number into a Duration    *)
-(*    are only required not to panic.                                      *)
+(*  - where the statement leaves a choice the set has both members          *)
+(*    {error, exact value}: float-syntax integers into ints (1.0, 1e2),     *)
+(*    numeric strings into numbers without `,string`, "true" into bool,     *)
+(*    numbers with `,string`, decimal fractions that a binary float only    *)
+(*    approximates (0.1 -> the correctly rounded value or an error),        *)
+(*    uint64 above 2^63-1, Duration from text sources and inside            *)
+(*    containers, absent required containers (absent = empty tolerated),    *)
+(*    a field with env= set (the variable's value, the document's value     *)
+(*    or an error);                                                         *)
+(*  - only "no panic" is required (any = TRUE) for: null, a bare number or  *)
+(*    unit-less numeric string into a Duration, a number into a string      *)
+(*    field, 0 / 1 into a bool.                                             *)
 (***************************************************************************)
 EXTENDS Integers, Sequences, FiniteSets, TLC
 
